@@ -737,6 +737,10 @@ extern "C" void sim_hang_trap(void) {
 }
 
 // ---- memory ---------------------------------------------------------------------------------
+static inline int heap_junk() {
+  static const unsigned char pat[] = {0x00, 0xFF, 0xA5, 0x01, 0x80, 0xFF, 0x7F, 0x00};
+  return pat[(G.w.salt >> 7) & 7];
+}
 extern "C" void *__wrap_malloc(size_t n) {
   if (!in_lib()) return __real_malloc(n);
   HarnessScope hs_;
@@ -747,7 +751,10 @@ extern "C" void *__wrap_malloc(size_t n) {
     return nullptr;
   }
   void *p = __real_malloc(n);
-  if (p) G.heap[p] = n;
+  if (p) {
+    G.heap[p] = n;
+    memset(p, heap_junk(), n);  // malloc'ed memory is indeterminate: a pattern chosen by the plan's world, not the allocator's mood
+  }
   return p;
 }
 extern "C" void *__wrap_calloc(size_t a_, size_t b_) {
@@ -774,9 +781,17 @@ extern "C" void *__wrap_realloc(void *p, size_t n) {
     errno = a->err ? a->err : ENOMEM;
     return nullptr;
   }
+  size_t old_n = 0;
+  if (p) {
+    auto it = G.heap.find(p);
+    if (it != G.heap.end()) old_n = it->second;
+  }
   void *q = __real_realloc(p, n);
   if (p && (q || n == 0)) G.heap.erase(p);
-  if (q) G.heap[q] = n;
+  if (q) {
+    G.heap[q] = n;
+    if (n > old_n && (old_n > 0 || !p)) memset((char *)q + old_n, heap_junk(), n - old_n);
+  }
   return q;
 }
 extern "C" void *__wrap_reallocarray(void *p, size_t a_, size_t b_) {
